@@ -64,7 +64,7 @@ func (c *Ctx) forwardingWriterField(t types.Type) (int, bool) {
 			continue
 		}
 		call, ok := ex0.Tuple.(*ssa.Call)
-		if !ok || !call.Call.IsInvoke() || call.Call.Method.Name() != "Write" || len(call.Call.Args) != 1 || call.Call.Args[0] != ssa.Value(write.Params[1]) {
+		if !ok || !call.Call.IsInvoke() || mname(call.Call.Method) != "Write" || len(call.Call.Args) != 1 || call.Call.Args[0] != ssa.Value(write.Params[1]) {
 			okAll = false
 			continue
 		}
